@@ -132,6 +132,7 @@ fn c07_inbound_packet() {
     match kind {
         0 => {
             assert!(m.srtla_id == id0 && s1.pending_reg2_idx == s0.pending_reg2_idx, "REG_NGP never adopts an id or cancels an attempt");
+            assert!(s1.broadcast_reg2_pending == s0.broadcast_reg2_pending, "REG_NGP leaves a flagged broadcast alone");
             let pkt = m.reg1_if_ngp_immediate(from, now);
             let s2 = m.vh_state();
             if let Some(pkt) = pkt {
@@ -171,6 +172,7 @@ fn c07_inbound_packet() {
             assert!(s1.pending_reg2_idx.is_none(), "REG_ERR cancels the pending attempt");
             assert!(s1.reg1_target_idx.is_none() && s1.reg1_next_send_at_ms == now + 4000, "REG_ERR: wait for a fresh REG_NGP");
             assert!(m.srtla_id == id0 && m.has_connected == hc0, "REG_ERR keeps the id");
+            assert!(s1.broadcast_reg2_pending == s0.broadcast_reg2_pending, "REG_ERR does not swallow the one REG2 broadcast round an adopted id is owed");
         }
     }
 }
@@ -205,6 +207,7 @@ fn c07_history_4() {
     st.reg1_target_idx = any_opt_idx();
     m.vh_set_state(st);
     let mut outstanding: [bool; NLINKS] = [false; NLINKS]; // ghost: REG1 sent, not answered / abandoned
+    let mut owed_broadcast = false; // ghost: an id was adopted and its one REG2 round has not gone out yet
     let mut now = any_now();
     let mut buf: [u8; 260] = kani::any();
     let mut step = 0;
@@ -235,6 +238,7 @@ fn c07_history_4() {
                 if was_pending == Some(from) && len == 258 {
                     assert!(outstanding[from], "history: a REG2 is accepted only from an uplink a REG1 was sent on");
                     outstanding[from] = false;
+                    owed_broadcast = true;
                 }
             }
             2 => {
@@ -259,6 +263,8 @@ fn c07_history_4() {
                 s.active_connections = act; // update_active_connections: whatever the links say
                 m.vh_set_state(s);
                 let sends = m.reg_driver_pending_sends(NLINKS, now);
+                assert!(sends.broadcast_reg2.is_some() == owed_broadcast, "history: every adopted id is broadcast in exactly one REG2 round, at the next driver tick");
+                owed_broadcast = false;
                 if let Some((i, pkt)) = sends.reg1 {
                     assert!(act == 0, "history: driver REG1 only while no uplink is registered");
                     emitted = Some(i);
